@@ -36,11 +36,14 @@ var (
 		"192.0.2.10", "192.0.2.11", "192.0.2.200", "198.51.100.5", "10.1.2.3", "127.0.0.1",
 		"2001:db8::1", "2001:db8::2", "2001:db8:1::1", "fe80::1", "::1",
 	}
+	// vfC03MappedEntries are list entries spelled as IPv4-mapped IPv6 addresses
+	// (what a dual-stack reverse proxy reports): the same client as the IPv4 form.
+	vfC03MappedEntries = []string{"::ffff:192.0.2.10", "::ffff:10.1.2.3"}
 	vfC03Nets = []string{
 		"192.0.2.0/24", "192.0.2.8/29", "192.0.2.10/32", "192.0.2.10/31", "0.0.0.0/0", "10.0.0.0/8", "198.51.100.0/30",
 		"2001:db8::/32", "2001:db8::/127", "2001:db8::1/128", "::/0", "fe80::/10", "128.0.0.0/1", "0.0.0.0/1",
 	}
-	vfC03IDs    = []string{"alice", "bob", "kid-1", "x"}
+	vfC03IDs    = []string{"alice", "bob", "kid-1", "x", "Kids-Tablet"}
 	vfC03Protos = []proxy.Proto{proxy.ProtoUDP, proxy.ProtoTCP, proxy.ProtoTLS, proxy.ProtoHTTPS, proxy.ProtoQUIC, proxy.ProtoDNSCrypt}
 )
 
@@ -69,7 +72,7 @@ func vfC03DrawEntries(t *rapid.T, label string, exclude map[string]bool) (es []s
 		var e string
 		switch rapid.IntRange(0, 2).Draw(t, fmt.Sprintf("%s_%d_kind", label, i)) {
 		case 0:
-			e = rapid.SampledFrom(vfC03Addrs).Draw(t, fmt.Sprintf("%s_%d_addr", label, i))
+			e = rapid.SampledFrom(append(append([]string{}, vfC03Addrs...), vfC03MappedEntries...)).Draw(t, fmt.Sprintf("%s_%d_addr", label, i))
 		case 1:
 			e = rapid.SampledFrom(vfC03Nets).Draw(t, fmt.Sprintf("%s_%d_net", label, i))
 		default:
@@ -157,7 +160,16 @@ func vfC03DrawReq(t *rapid.T, l *vfC03Lists, label string) (r *vfC03Req) {
 	if r.Proto == proxy.ProtoTLS || r.Proto == proxy.ProtoHTTPS || r.Proto == proxy.ProtoQUIC {
 		if rapid.IntRange(0, 2).Draw(t, label+"_hasid") > 0 {
 			r.ClientID = rapid.SampledFrom(append([]string{"carol"}, vfC03IDs...)).Draw(t, label+"_id")
+			if rapid.IntRange(0, 3).Draw(t, label+"_id_lower") == 0 {
+				// the client spells it in lower case (the server folds case anyway)
+				r.ClientID = strings.ToLower(r.ClientID)
+			}
 		}
+	}
+	if r.Proto == proxy.ProtoHTTPS && r.Addr.Is4() && rapid.IntRange(0, 3).Draw(t, label+"_mapped") == 0 {
+		// DoH behind a trusted dual-stack reverse proxy: the client address
+		// comes from a header in IPv4-mapped form
+		r.Addr = netip.AddrFrom16(r.Addr.As16())
 	}
 
 	var subjects []string
@@ -203,7 +215,10 @@ func vfNewC03Model(l *vfC03Lists) (m *vfC03Model) {
 }
 
 func vfAddrIn(a netip.Addr, ips []netip.Addr, nets []netip.Prefix, stripZoneForExact bool) (ok bool) {
+	// an IPv4-mapped IPv6 address is the IPv4 client, on both sides
+	a = a.Unmap()
 	for _, ip := range ips {
+		ip = ip.Unmap()
 		if ip == a || (stripZoneForExact && ip == a.WithZone("")) {
 			return true
 		}
@@ -227,19 +242,31 @@ func vfStrIn(s string, ss []string) (ok bool) {
 	return false
 }
 
+// vfIDIn compares ClientIDs the way the statement's quantifier demands
+// ("differing case"): they are host-name labels.
+func vfIDIn(s string, ss []string) (ok bool) {
+	for _, x := range ss {
+		if strings.EqualFold(x, s) {
+			return true
+		}
+	}
+
+	return false
+}
+
 // clientExcluded is the statement's rule.  stripZone selects how a zoned
 // address compares with exact-address entries (the statement does not say).
 func (m *vfC03Model) clientExcluded(r *vfC03Req, stripZone bool) (excluded bool) {
 	allowMode := len(m.allowedIPs)+len(m.allowedNets)+len(m.allowedIDs) > 0
 	if allowMode {
 		ipAllowed := vfAddrIn(r.Addr, m.allowedIPs, m.allowedNets, stripZone)
-		idAllowed := r.ClientID != "" && vfStrIn(r.ClientID, m.allowedIDs)
+		idAllowed := r.ClientID != "" && vfIDIn(r.ClientID, m.allowedIDs)
 
 		return !(ipAllowed || idAllowed)
 	}
 
 	ipDis := vfAddrIn(r.Addr, m.disIPs, m.disNets, stripZone)
-	idDis := r.ClientID != "" && vfStrIn(r.ClientID, m.disIDs)
+	idDis := r.ClientID != "" && vfIDIn(r.ClientID, m.disIDs)
 
 	return ipDis || idDis
 }
@@ -296,8 +323,10 @@ func vfC03Query(r *vfC03Req) (q vfQuery) {
 
 // vfC03CheckDecision compares one HandleBefore outcome with the model.
 func vfC03CheckDecision(t *rapid.T, l *vfC03Lists, m *vfC03Model, r *vfC03Req, o *vfOutcome, via string) {
+	// the quantifier names zoned IPv6 client addresses: the zone is the
+	// interface the request came in on, the entry fe80::1 means that client
 	exA := m.clientExcluded(r, true)
-	exB := m.clientExcluded(r, false)
+	exB := exA
 	hostB, hostAmb := m.hostBlocked(r.Name, r.Qtype)
 	ambiguous := exA != exB || (!exA && hostAmb && !hostB)
 	wantExcluded := exA || hostB
